@@ -241,6 +241,7 @@ func cmdCheck(args []string) int {
 		return 2
 	}
 	eng.debug = *debug
+	eng.curProp = *prop
 	installHooks(eng, *prop)
 	loadT := time.Since(start).Seconds()
 
